@@ -162,6 +162,12 @@ if reach:
 # exception, a value the module passed in itself, or a bound method of one of those
 if ctx.lua is None:
     ctx.lua = lua
+# an interwiki table as init_interwiki_map() would have stored it (no network here)
+ctx.db_conn.execute("CREATE TABLE IF NOT EXISTS interwiki_maps (prefix TEXT PRIMARY KEY, url TEXT, protorel INTEGER, local INTEGER)")
+for row in (("s", "https://en.wikisource.org/wiki/$1", 1, 1), ("w", "https://en.wikipedia.org/wiki/$1", 0, 1),
+            ("ext", "https://example.org/$1", 0, 0)):
+    ctx.db_conn.execute("INSERT OR REPLACE INTO interwiki_maps VALUES(?, ?, ?, ?)", row)
+ctx.db_conn.commit()
 cap = []
 luaexec.call_set_functions(ctx, cap.append)
 helpers_tbl = cap[0]
@@ -169,10 +175,10 @@ mkpool = lua.eval("""function()
   local t2 = {1, startswith = function() return false end}
   local evil = {replace = function() return t2 end}
   return {false, 0, -1, 1e308, "", "x", "a\\0b", {}, evil, function() end, true, string.rep("z", 5000), "Template:x",
-          '{"0": {"a": 1}, "1": [1, 2], "00": [3], "k": {"0": {}}}', '[{"0": [1]}, {"2": {"x": null}}]', '{"a": 1'}
+          '{"0": {"a": 1}, "1": [1, 2], "00": [3], "k": {"0": {}}}', '[{"0": [1]}, {"2": {"x": null}}]', '{"a": 1', "local", "!local"}
 end""")
 pool_t = mkpool()
-pool = [None] + [pool_t[i] for i in range(1, 17)]
+pool = [None] + [pool_t[i] for i in range(1, 19)]
 lpcall = lua.eval("function(f, a, b, c, n) if n == 0 then return pcall(f) elseif n == 1 then return pcall(f, a) "
                   "elseif n == 2 then return pcall(f, a, b) else return pcall(f, a, b, c) end end")
 LUA_TYPES = tuple(getattr(lupa, n) for n in ("_LuaTable", "_LuaFunction", "_LuaObject") if hasattr(lupa, n))
